@@ -82,20 +82,23 @@ impl PagedReader {
                 Ok(l) => offset < old(self).phy_file_size && l == final(self).offset
                     && l == offset - (offset / old(self).page_size) * 4,
                 Err(_) => offset >= old(self).phy_file_size && final(self).offset == old(self).offset },
-//@stmt 0 before self\.offset = offset - pages_before \* CHECKSUM_SIZE
+//@body_start
         proof {
-            let ps = self.page_size as int;
-            let o = offset as int;
-            let pb = pages_before as int;
-            vstd::arithmetic::div_mod::lemma_fundamental_div_mod(o, ps);
-            vstd::arithmetic::div_mod::lemma_mod_bound(o, ps);
-            assert(ps * pb == pb * ps) by (nonlinear_arith);
-            assert(pb * ps <= o < pb * ps + ps);
-            assert(pb < self.pages) by (nonlinear_arith)
-                requires pb * ps <= o, o < self.pages * ps, ps > 0, pb >= 0, self.pages >= 0;
-            assert(pb * 4 <= pb * ps) by (nonlinear_arith) requires ps >= 4, pb >= 0;
-            assert(o - pb * 4 <= self.pages * (ps - 4) + 4) by (nonlinear_arith)
-                requires pb * ps <= o, o < pb * ps + ps, pb + 1 <= self.pages, ps > 4, pb >= 0;
+            // arithmetic of the physical -> logical translation, stated over the parameters only (no anchor inside the body)
+            if offset < self.phy_file_size {
+                let ps = self.page_size as int;
+                let o = offset as int;
+                let pb = o / ps;
+                vstd::arithmetic::div_mod::lemma_fundamental_div_mod(o, ps);
+                vstd::arithmetic::div_mod::lemma_mod_bound(o, ps);
+                assert(ps * pb == pb * ps) by (nonlinear_arith);
+                assert(pb * ps <= o < pb * ps + ps);
+                assert(pb < self.pages) by (nonlinear_arith)
+                    requires pb * ps <= o, o < self.pages * ps, ps > 0, pb >= 0, self.pages >= 0;
+                assert(pb * 4 <= pb * ps) by (nonlinear_arith) requires ps >= 4, pb >= 0;
+                assert(o - pb * 4 <= self.pages * (ps - 4) + 4) by (nonlinear_arith)
+                    requires pb * ps <= o, o < pb * ps + ps, pb + 1 <= self.pages, ps > 4, pb >= 0;
+            }
         }
 //@endfn
 
